@@ -141,6 +141,9 @@ UNITS["C07"] = [
        "scalar == 1 at the peak and for the always-on (0,0,0) tent; scalar == 0 at or beyond min/max", stubs=[RANDOM_STATE]),
     _k("c07_scalar_at_missing_axis_reads_default", "fontdrasil", _VAR, ["fontdrasil::variations::VariationRegion::scalar_at"], "bounded",
        "ONE axis in the region, empty location", "valid one-axis region, location without that axis", "axis read as 0: scalar == 1 iff the tent peaks at 0, else 0", stubs=[RANDOM_STATE]),
+    _k("c07_rounding_behaviour_apply_within_half", "fontdrasil", _VAR, ["fontdrasil::variations::RoundingBehaviour::apply", "<f64 as RoundTiesEven>::round_ties_even", "<kurbo::Vec2 as RoundTiesEven>::round_ties_even"], "complete",
+       "every finite f64 with |v| <= 2^51; loop-free", "any delta value",
+       "None is the identity bit for bit; RoundTiesEven yields an integer within 0.5 of the value, exact halves go to the even neighbour; Vec2 is rounded coordinate-wise (the 'within 0.5 with rounding' clause rests on this kernel)"),
     _k("c07_location_from_vec_is_a_map_3", "fontdrasil", "fontdrasil/src/coords.rs", ["fontdrasil::coords::Location::from(Vec)", "fontdrasil::coords::Location::get", "fontdrasil::coords::Location::contains"], "bounded",
        "exactly 3 (tag, coordinate) pairs, any order, repeated tags allowed; any probe tag", "3 pairs",
        "representation sorted with unique tags; get(t) == the last coordinate supplied for t, None if absent; contains <=> get is Some  (the location lookup scalar_at and the model rely on)"),
@@ -250,6 +253,14 @@ for _nm, _fn, _dom, _pre, _post in [
     ("c19_vertical_origin_out_of_range_is_not_silently_stored", "vertical_origin", "every finite v outside that range; loop-free", "v does not fit", "from the property statement: the value must not be stored as something else (FAILS today: known finding C19-vertical-origin-saturates)"),
 ]:
     UNITS["C19"].insert(-1, _k(_nm, "fontir", _IR, [f"fontir::ir::GlyphInstance::{_fn}"], "complete", _dom, _pre, _post, timeout_s=600))
+for _nm, _dom, _pre, _post in [
+    ("c19_phantom_points_carry_the_rounded_advance", "every width in [-0.5, 65535.5), heights / origins within +/-10000, vertical on or off; loop-free", "representable advance width",
+     "exactly four phantom points (0,0), (floor(w+0.5),0), (0,top), (0,bottom): the gvar phantom advance is the OT-rounded width, top/bottom = rounded origin and origin - height (or 0,0 without vertical metrics)"),
+    ("c19_phantom_advance_out_of_range_never_wraps", "every finite width outside [-0.5, 65535.5); loop-free", "w does not fit u16", "the phantom advance is the nearest bound (0 / 65535): never a wrapped value"),
+    ("c19_phantom_advance_out_of_range_is_not_silently_stored", "every finite width >= 65535.5; loop-free", "w does not fit u16",
+     "from the property statement ('advances beyond 65535'): must not be stored as something else (FAILS today: known finding C19-phantom-advance-width-saturates)"),
+]:
+    UNITS["C19"].insert(-1, _k(_nm, "fontir", _IR, ["fontir::ir::GlyphInstance::add_phantom_points"], "complete", _dom, _pre, _post, timeout_s=600))
 UNITS["C19"].insert(-1, _k("c19_glyph_height_cover", "fontir", _IR, [], "complete", "", "", "ordinary, saturated and fallback paths reachable", kind="cover", timeout_s=600))
 
 # C19 cross-listing: MetricsBuilder::update's i16 clamps / overflow freedom are also a C19 obligation
